@@ -57,12 +57,24 @@ var Check = &vrt.Check{
 // ---------------------------------------------------------------------------------------------
 // scenarios
 
-var opNames = []string{"ProcessInbound-new", "ProcessInbound-dup", "ProcessInbound-replace", "AddOut-new", "AddOut-replace", "SetSent", "SetUnread-true", "SetUnread-false"}
+var opNames = []string{"ProcessInbound-new", "ProcessInbound-dup", "ProcessInbound-replace", "AddOut-new", "AddOut-replace", "SetSent", "SetUnread-true", "SetUnread-false", "ProcessInbound-longmid"}
 
 var sizes = map[string][2]int{"small": {30, 0}, "medium": {900, 0}, "large": {3000, 1500}}
 var sizeNames = []string{"small", "medium", "large"}
 
 const targetMID = "TARGET000001"
+
+// longMID: a legal identifier (no separators) so long that "<MID>.b2f" still fits a file name but a
+// longer temporary name built from it does not (NAME_MAX 255).
+var longMID = strings.Repeat("L", 244)
+
+// mid is the identifier of the message the operation works on.
+func (sc scenario) mid() string {
+	if strings.HasSuffix(sc.Op, "-longmid") {
+		return longMID
+	}
+	return targetMID
+}
 
 var bystanders = []struct{ folder, mid string }{{"in", "BYIN00000001"}, {"out", "BYOUT0000001"}, {"sent", "BYSENT000001"}}
 
@@ -77,7 +89,7 @@ func (sc scenario) String() string { return fmt.Sprintf("%s/pre%d/%s", sc.Op, sc
 
 func (sc scenario) target(tag string) mboxkit.MsgSpec {
 	sz := sizes[sc.Size]
-	return mboxkit.MsgSpec{MID: targetMID, From: "N0SRC", To: []string{"N0DST"}, BodyLen: sz[0], FileLen: sz[1], Tag: fmt.Sprintf("%s%d", tag, sc.Seed)}
+	return mboxkit.MsgSpec{MID: sc.mid(), From: "N0SRC", To: []string{"N0DST"}, BodyLen: sz[0], FileLen: sz[1], Tag: fmt.Sprintf("%s%d", tag, sc.Seed)}
 }
 
 // libOp is the operation name the child understands.
@@ -87,17 +99,17 @@ func (sc scenario) libOp() string { return strings.SplitN(sc.Op, "-", 2)[0] }
 func (sc scenario) targetPaths() []string {
 	switch sc.libOp() {
 	case "ProcessInbound", "SetUnread":
-		return []string{"in/" + targetMID + mailbox.Ext}
+		return []string{"in/" + sc.mid() + mailbox.Ext}
 	case "AddOut":
-		return []string{"out/" + targetMID + mailbox.Ext}
+		return []string{"out/" + sc.mid() + mailbox.Ext}
 	case "SetSent":
-		return []string{"out/" + targetMID + mailbox.Ext, "sent/" + targetMID + mailbox.Ext}
+		return []string{"out/" + sc.mid() + mailbox.Ext, "sent/" + sc.mid() + mailbox.Ext}
 	}
 	return nil
 }
 
 func (sc scenario) crashSpec(dir string) mboxkit.CrashSpec {
-	sp := mboxkit.CrashSpec{Dir: dir, Op: sc.libOp(), MID: targetMID}
+	sp := mboxkit.CrashSpec{Dir: dir, Op: sc.libOp(), MID: sc.mid()}
 	switch sc.libOp() {
 	case "ProcessInbound", "AddOut":
 		t := sc.target("new")
@@ -153,7 +165,7 @@ func (sc scenario) buildPre(dir string) error {
 				return err
 			}
 			for _, m := range list {
-				if m.MID() == targetMID {
+				if m.MID() == sc.mid() {
 					return mailbox.SetUnread(m, false)
 				}
 			}
@@ -177,6 +189,7 @@ type bench struct {
 	rec     mboxkit.Trace     // the recording run
 	nViol   int
 	inconcl int
+	opFails bool // the undisturbed operation ends with an error (see record)
 }
 
 func (b *bench) violate(key, point, format string, a ...any) {
@@ -237,7 +250,10 @@ func names(w []mboxkit.Sys) string {
 // stores the resulting tree as the "complete new version".
 func (b *bench) record() bool {
 	t, err := b.traced(0, nil)
-	if err != nil || !t.BeginSeen || !t.EndSeen || t.ExitCode != mboxkit.ExitOpOK || t.OtherThread != 0 {
+	// an identifier the file system cannot take may make the undisturbed operation fail cleanly: that is
+	// a legitimate outcome (nothing stored, nothing damaged), and the crash points are enumerated all the same
+	b.opFails = err == nil && t.ExitCode == mboxkit.ExitOpError && strings.HasSuffix(b.sc.Op, "-longmid")
+	if err != nil || !t.BeginSeen || !t.EndSeen || (t.ExitCode != mboxkit.ExitOpOK && !b.opFails) || t.OtherThread != 0 {
 		b.o.Inconclusive = append(b.o.Inconclusive, fmt.Sprintf("%s: recording run unusable (err=%v begin=%v end=%v exit=%d out=%q other-thread calls=%d)", b.sc, err, t.BeginSeen, t.EndSeen, t.ExitCode, t.Stdout, t.OtherThread))
 		return false
 	}
@@ -250,23 +266,30 @@ func (b *bench) record() bool {
 	// the undisturbed result (C10 checks this over histories; here it is the baseline of "complete copy")
 	want := mboxkit.Canon(mboxkit.MustBytes(b.sc.target("new").Build()))
 	bad := ""
-	switch b.sc.libOp() {
-	case "ProcessInbound":
-		got := b.ref["in/"+targetMID+mailbox.Ext]
+	if b.opFails {
+		b.o.Count("undisturbed_operation_failed_cleanly", 1)
+		if _, stored := b.ref["in/"+b.sc.mid()+mailbox.Ext]; stored {
+			bad = "the operation reported an error but left a file under the message's name"
+		}
+	}
+	switch op := b.sc.libOp(); {
+	case b.opFails:
+	case op == "ProcessInbound":
+		got := b.ref["in/"+b.sc.mid()+mailbox.Ext]
 		if !bytes.Equal(mboxkit.Canon(got), want) || !mboxkit.HasHeader(got, "x-unread") {
 			bad = "in/ does not hold the received message flagged unread"
 		}
-	case "AddOut":
-		if !bytes.Equal(mboxkit.Canon(b.ref["out/"+targetMID+mailbox.Ext]), want) {
+	case op == "AddOut":
+		if !bytes.Equal(mboxkit.Canon(b.ref["out/"+b.sc.mid()+mailbox.Ext]), want) {
 			bad = "out/ does not hold the added message"
 		}
-	case "SetSent":
-		_, inOut := b.ref["out/"+targetMID+mailbox.Ext]
-		if inOut || !bytes.Equal(mboxkit.Canon(b.ref["sent/"+targetMID+mailbox.Ext]), want) {
+	case op == "SetSent":
+		_, inOut := b.ref["out/"+b.sc.mid()+mailbox.Ext]
+		if inOut || !bytes.Equal(mboxkit.Canon(b.ref["sent/"+b.sc.mid()+mailbox.Ext]), want) {
 			bad = "message not moved from out/ to sent/"
 		}
-	case "SetUnread":
-		got := b.ref["in/"+targetMID+mailbox.Ext]
+	case op == "SetUnread":
+		got := b.ref["in/"+b.sc.mid()+mailbox.Ext]
 		if !bytes.Equal(mboxkit.Canon(got), want) || mboxkit.HasHeader(got, "x-unread") != (b.sc.Op == "SetUnread-true") {
 			bad = "flag not rewritten / message changed"
 		}
@@ -473,9 +496,9 @@ func (b *bench) recovery(point string) {
 		}
 		// clause 3: an outbound message being marked sent is still in out/ or sent/
 		if b.sc.libOp() == "SetSent" {
-			want := mboxkit.Canon(b.pre["out/"+targetMID+mailbox.Ext])
-			o1, inOut := post["out/"+targetMID+mailbox.Ext]
-			o2, inSent := post["sent/"+targetMID+mailbox.Ext]
+			want := mboxkit.Canon(b.pre["out/"+b.sc.mid()+mailbox.Ext])
+			o1, inOut := post["out/"+b.sc.mid()+mailbox.Ext]
+			o2, inSent := post["sent/"+b.sc.mid()+mailbox.Ext]
 			switch {
 			case !inOut && !inSent:
 				b.violate("outbound-lost", point, "the message is in neither out/ nor sent/")
@@ -487,8 +510,8 @@ func (b *bench) recovery(point string) {
 			o.Count("outbound_placement_checked", 1)
 		}
 		// clause 4: "already received" only if a complete copy is in the inbox
-		complete := map[string][][]byte{targetMID: {mboxkit.Canon(mboxkit.MustBytes(b.sc.target("new").Build()))}}
-		mids := []string{targetMID, "NEVERSEEN001"}
+		complete := map[string][][]byte{b.sc.mid(): {mboxkit.Canon(mboxkit.MustBytes(b.sc.target("new").Build()))}}
+		mids := []string{b.sc.mid(), "NEVERSEEN001"}
 		for i := 0; i < b.sc.Pre; i++ {
 			mids = append(mids, bystanders[i].mid)
 		}
@@ -519,8 +542,8 @@ func (b *bench) recovery(point string) {
 		// clause 5 ("survives"): the restarted mailbox stays usable - the interrupted store can be
 		// repeated, also with a (shorter) other version of the message, and the result is exactly
 		// that message; leftovers of the interrupted operation must not leak into it.
-		if op := b.sc.libOp(); (op == "ProcessInbound" || op == "AddOut") && len(o.Violations) == 0 {
-			redo := mboxkit.MsgSpec{MID: targetMID, From: "N0SRC", To: []string{"N0DST"}, BodyLen: 12, Tag: "redo-after-crash"}
+		if op := b.sc.libOp(); (op == "ProcessInbound" || op == "AddOut") && len(o.Violations) == 0 && !b.opFails {
+			redo := mboxkit.MsgSpec{MID: b.sc.mid(), From: "N0SRC", To: []string{"N0DST"}, BodyLen: 12, Tag: "redo-after-crash"}
 			msg := redo.Build()
 			want := mboxkit.Canon(mboxkit.MustBytes(redo.Build()))
 			var err error
@@ -532,7 +555,7 @@ func (b *bench) recovery(point string) {
 				err = h.AddOut(msg)
 			}
 			o.Count("redo_after_crash_operations", 1)
-			rel := folder + "/" + targetMID + mailbox.Ext
+			rel := folder + "/" + b.sc.mid() + mailbox.Ext
 			got, rerr := os.ReadFile(filepath.Join(b.runDir, rel))
 			list := h.Inbox
 			if folder == "out" {
